@@ -3,6 +3,7 @@ CONSTANTS
   Digests = {"d1","d2"}
   Kinds = {"exact","flipped","trunc"}
   VerifyMem = FALSE
+  FenceWriters = TRUE
   MaxRetries = 2
 INVARIANT Inv
 PROPERTY FailedWriteLeavesNothing
